@@ -151,6 +151,10 @@ class Model:
     skip = []
     if tk == 'succeeded':
       exp['final'] = (0, tuple(sorted({'m': float(c.get('v', 1)), 'n': float(c.get('w', 1))}.items())))
+    if tk == 'rich':
+      v, w = float(c.get('v', 1)), float(c.get('w', 1))
+      exp['meas'] = ((1, tuple(sorted({'m': v, 'n': w}.items()))), (2, tuple(sorted({'m': w, 'n': v}.items()))))
+      exp['md'] = ((':a', 'k1', 'S', str(c.get('v', 1))),)
     if tk == 'infeasible':
       # Documents say "REQUESTED or COMPLETED" without covering this case.
       if got['state'] not in ('INFEASIBLE', 'REQUESTED'):
